@@ -401,7 +401,12 @@ func c03LongList(c *fw.Case) (o fw.Outcome) {
 		want = []int{16383, 16384, 16385, 20000, 32768, 49152, 49153, 65535, 65536}[(j/len(lts)/3)%9]
 		o.Tag("long-list:fragmented-length")
 	}
-	v, n := longList(c.R, lt, want)
+	w16, minimal := constrainedCount16K(lt, j, len(lts))
+	if minimal {
+		want = w16
+		o.Tag("long-list:constrained-count-16K-and-more")
+	}
+	v, n := longList(c.R, lt, want, minimal)
 	ref := compareEncodings(&o, v.Interface(), "", fmt.Sprintf("%s x%d", lt.Typ.Elem().Name(), n), false)
 	o.Tag("long-list:" + lt.Typ.Elem().Name())
 	o.Digest, o.Nontrivial = fw.Hash(ref), n >= 2
